@@ -201,7 +201,7 @@ End:
 
 	itr.rowBuilder.AddMetricName(metricName)
 	itr.rowBuilder.AddTimestamp(itr.originRow.Timestamp())
-	ns := itr.originRow.NameSpace()
+	ns := itr.originRow.m.Namespace() // raw value: NameSpace() substitutes default-ns and would hide an absent namespace
 	if len(ns) == 0 {
 		// if row namespace is empty, use request's namespace
 		ns = itr.namespace
